@@ -405,15 +405,28 @@ fn reduce_once(x: U256) -> U256 {
 }
 
 fn compute_shl_uint(a: U256, b: U256) -> U256 {
-    debug_assert!(b.lt(&U256::from(256)));
-    let ls_limb = b.as_limbs()[0];
-    a.shl(ls_limb as usize)
+    let bits = U256::from(254);
+    if b < bits {
+        // keep the low 254 bits of the shifted value and reduce it modulo M
+        let mask = (U256::from(1) << 254) - U256::from(1);
+        reduce_once(a.shl(b.as_limbs()[0] as usize) & mask)
+    } else if M - b < bits {
+        // circom: a shift count k > M/2 means a shift by M - k in the other direction
+        a.shr((M - b).as_limbs()[0] as usize)
+    } else {
+        U256::ZERO
+    }
 }
 
 fn compute_shr_uint(a: U256, b: U256) -> U256 {
-    debug_assert!(b.lt(&U256::from(256)));
-    let ls_limb = b.as_limbs()[0];
-    a.shr(ls_limb as usize)
+    let bits = U256::from(254);
+    if b < bits {
+        a.shr(b.as_limbs()[0] as usize)
+    } else if M - b < bits {
+        compute_shl_uint(a, M - b)
+    } else {
+        U256::ZERO
+    }
 }
 
 /// All references must be backwards.
